@@ -66,6 +66,7 @@ class Ctx:
         self.cur = None            # (kind, params) of the case being run
         self.extra = {}            # free-form evidence (sets are merged by union, ints summed)
         self.repeat = False        # True while the second ("repeat") pass runs
+        self.bulk = 0              # distinct-by-construction sub-cases of exhaustive enumerations (first pass only)
 
     # -- counting -------------------------------------------------------
     def count(self, name, n=1):
@@ -86,6 +87,11 @@ class Ctx:
         """Cheap distinct-counting of sub-cases (hashable obj; PYTHONHASHSEED is pinned by ./check)."""
         self.distinct.add(hash((tag, obj)) & 0xFFFFFFFFFFFFFFF)
         self.evaluations += 1
+
+    def bulk_distinct(self, n):
+        """n sub-cases that are pairwise distinct BY CONSTRUCTION (tuples of an exhaustive enumeration); counted, not hashed."""
+        if not self.repeat:
+            self.bulk += n
 
     def evals(self, n=1):
         self.evaluations += n
@@ -117,7 +123,7 @@ class Ctx:
         return {
             "prop": self.prop, "tier": self.tier, "seed": self.seed, "shard": self.shard,
             "evaluations": self.evaluations, "counters": self.counters,
-            "distinct": sorted(self.distinct), "samples": self.samples,
+            "distinct": sorted(self.distinct), "bulk_distinct": self.bulk, "samples": self.samples,
             "violations": self.violations, "viol_per_key": self._viol_per_key,
             "viol_total": self.viol_total, "cross": self.cross, "errors": self.errors,
             "extra": extra,
